@@ -362,15 +362,18 @@ def _evstr(e):
 
 def _mk(kind, source="bin"):
     def run(tier, seed, jobs):
-        depth = 2 if tier == "quick" else 3
-        faults_ = 1 if tier == "quick" else 2
+        # (history length, crash budget, frontier cap per level)
+        if tier == "quick":
+            depth, faults_, cap = 2, 1, None
+            if source == "meta-shorter":
+                depth = 1
+        else:
+            depth, faults_, cap = {("NP2.4", "bin"): (3, 2, 150), ("NP2.4", "cbin"): (2, 2, 150), ("NP2.4", "meta-shorter"): (2, 1, 150),
+                                   ("NP2.1", "bin"): (3, 2, 200)}.get((kind, source), (2, 1, None))
         model = ConvModel(kind, tier, source)
         if kind == "NP1":
-            depth, faults_ = 2, 1
-        if source == "meta-shorter" and tier == "quick":
-            depth = 1
-        return histories.bfs(model, "histories-%s%s" % (kind, "" if source == "bin" else "-" + source), tier, jobs, depth, faults_,
-                             cap_states=None if tier == "quick" else 400)
+            depth, faults_, cap = 2, 1, None
+        return histories.bfs(model, "histories-%s%s" % (kind, "" if source == "bin" else "-" + source), tier, jobs, depth, faults_, cap_states=cap)
     return run
 
 
@@ -413,8 +416,9 @@ CHECK = {
         "deviation points: every filesystem mutation below the session directory seen by an audit hook (open for writing, mkdir, rename, remove) and every entry of a named "
         "processing step (window write, close, metadata, verification, compression, per-chunk compression, deletion); a crash is raised *before* the point; data still in "
         "Python buffers is flushed when the dead converter is collected (only affects files that are incomplete outputs anyway)",
-        "quick: histories of length <= 2 with <= 1 crash, 4 option sets x overwrite (+ already-split target); thorough: length <= 3, <= 2 crashes, all 8 option triples, "
-        "frontier capped at 400 states per level (reported)",
+        "quick: histories of length <= 2 with <= 1 crash (length 1 for the longer-than-declared original), 4 option sets x overwrite, a run aimed at an already split shank file, "
+        "and pairs of process() calls on one converter object; thorough: NP2.4 length <= 3 with <= 2 crashes, the other variants length 2, all 8 option triples, "
+        "frontier capped at 150-200 states per level (reported in caps_hit)",
         "a status-0 run on a directory left by an interrupted run may create the missing shank folders with empty files: recorded as an observation, not asserted "
         "(the property speaks of a repeated run after a completed one)",
         "mtscomp runs single-threaded (sequential pool) so that chunk order is program order",
